@@ -329,7 +329,12 @@ func (ps *sparser) iff() Expr {
 	x := ps.implies()
 	for ps.isOp("<==>") {
 		ps.next()
-		y := ps.implies()
+		var y Expr
+		if ps.isId("forall") || ps.isId("exists") {
+			y = ps.expr()
+		} else {
+			y = ps.implies()
+		}
 		x = &EBin{"<==>", x, y}
 	}
 	return x
